@@ -116,6 +116,14 @@ PROFILES = {
                 conciliation_strategies=['USER', 'USER', 'SENICIDE', 'STOP'], ops_window=(1.0, 200.0),
                 synchro_pool=['USER', 'USER', 'TIMEOUT', 'STRICT', 'LIST', 'CORE'], child_kinds=SIMPLE_CHILDREN,
                 supvisors_failure_strategies=['CONTINUE', 'CONTINUE', 'RESYNC'], n_groups=[2, 3], quiesce=60.0),
+    'C19': dict(BASE, builder='twin', max_faults=0, ops='none', loads=[0, 5, 10, 15, 20, 25, 30, 40, 50, 60],
+                p_shared_node=0.6, p_absent=0.25, p_disabled=0.1, n_inst=[2, 3, 4, 5], n_programs=[2, 3, 4],
+                n_groups=[2, 3, 4], max_app_seq=2, max_seq=3, p_sequenced=0.85,
+                distributions=['ALL_INSTANCES', 'ALL_INSTANCES', 'SINGLE_INSTANCE', 'SINGLE_NODE'],
+                child_kinds={'ok': 1.0}, p_numprocs=0.25, supvisors_failure_strategies=['CONTINUE'], p_ident_rule=0.6,
+                p_autostart=0.1, autorestart=['false'], startsecs=[0, 1, 1, 2, 4], p_wait_exit=0.0, p_late_boot=0.15,
+                late_boot_max=30.0, conciliation_strategies=['USER'], synchro_pool=['TIMEOUT', 'STRICT', 'LIST'],
+                need_timeout=True, p_app_sequenced=0.5, p_managed=0.95),
     'C02': dict(BASE, max_faults=6, ops='fsm', running_failure=gen.RUNNING_FAILURE + ['RESTART', 'SHUTDOWN'],
                 p_autostart=0.4, p_late_boot=0.4,
                 fault_weights={'crash': 2, 'restart': 3, 'partition': 2, 'stall': 1, 'slow': 1, 'clock_jump': 0.5,
@@ -129,6 +137,8 @@ PROFILES = {
 
 def build(prop, seed):
     prof = PROFILES[prop]
+    if prof.get('builder') == 'twin':
+        return build_twin(prop, seed, prof)
     if prof.get('builder') == 'puppet':
         from . import puppetgen
         return puppetgen.build(prop, seed, prof)
@@ -170,6 +180,36 @@ def build(prop, seed):
     if prof.get('event_drop'):
         scen['event_drop'] = {'rate': gen.pick(rng, [0.0, 0.05, 0.2, 0.5, 0.9])}
     return scen
+
+
+def build_twin(prop, seed, prof):
+    rng = random.Random(kernel.hash64(seed, 'gen'))
+    config = gen.gen_config(rng, prof)
+    plan = gen.gen_boots(rng, prof, config)
+    nicks = [s['nick'] for s in config['instances']]
+    namespecs = gen.namespecs_of(config)
+    apps = [g['name'] for g in config['groups']]
+    from . import ops
+    # some load before the probe
+    for _ in range(rng.randint(0, 4)):
+        ns = gen.pick(rng, namespecs)
+        method, args = gen.pick(rng, [('supvisors.start_process', [ops._strategy(rng, 0.0), ns, '', False]),
+                                      ('supvisors.start_process', [ops._strategy(rng, 0.0), ns, '', False]),
+                                      ('supvisors.start_application', [ops._strategy(rng, 0.0), ns.split(':')[0], False]),
+                                      ('supervisor.startProcess', [ns, False])])
+        plan.append({'t': round(rng.uniform(55.0, 90.0), 3), 'kind': 'rpc', 'inst': gen.pick(rng, nicks + ['$master']),
+                     'method': method, 'args': args})
+    t_probe = 120.0
+    mode = gen.pick(rng, ['application', 'application', 'process'])
+    if mode == 'application':
+        name = gen.pick(rng, apps)
+    else:
+        name = gen.pick(rng, namespecs)
+        if rng.random() < 0.3:
+            name = name.split(':')[0] + ':*'
+    plan.append({'t': t_probe, 'kind': 'probe', 'inst': gen.pick(rng, nicks + ['$master']), 'mode': mode,
+                 'strategy': ops._strategy(rng, 0.0), 'name': name, 'repeat': rng.randint(1, 3)})
+    return {'prop': prop, 'seed': seed, 'config': config, 'plan': plan, 't_end': t_probe + 70.0}
 
 
 def observers_for(prop, scen):
@@ -217,6 +257,9 @@ def observers_for(prop, scen):
 
 
 def make_run(prop, scen):
+    if prop == 'C19':
+        from oracles import common, prediction
+        return prediction.TwinRun(scen, lambda: [common.InternalErrors(), common.StateGraph()])
     run = Run(scen['config'], scen['plan'], scen['seed'], observers=observers_for(prop, scen), t_end=scen['t_end'])
     drop = scen.get('event_drop')
     if drop:
